@@ -15,6 +15,25 @@ the SPEC digests Rfc8205.digest / signDigest, key selection and decision logic o
   tie 3  signing           rtr_bgpsec_generate_signature: OpenSSL ECDSA_verify over SHA-256(Lean signDigest)
                            under the public key, strict DER, sig_len; paths built hop by hop by rtrlib and
                            then validated by rtrlib; error codes.
+  tie 4  table changes     (C11) the SPKI table is shared with the RTR threads and every lookup of a validation takes
+         during a call     its lock separately: the harness performs router-key withdrawals / additions / replacements
+                           at EVERY point between two lookups of a call (before the k-th acquisition of the table's
+                           lock) and inside EVERY allocation of the call (allocator hook), for 1- to 3-hop paths; the
+                           model (`validateFull` over a `View`: one table snapshot per lookup) is run on the lookup
+                           index the harness reports, and the oracle demands VALID exactly when every hop's signature
+                           verifies under a key returned by THAT hop's own lookup.
+  tie 5  encodings         (C11) every signature field is judged by an independent strict DER parser (der_ecdsa_sig
+                           below, no OpenSSL): re-encodings of a valid signature that BER decoders accept (long-form
+                           lengths, padded / negative integers, indefinite length, trailing octets) must not be VALID,
+                           the other valid signature (r, n-s) must be.
+  tie 6  histories         (C12, C11) calls REPEAT within one process (same key again, same unloadable key again,
+                           A-B-A, same request twice); every call is judged on its own arguments, so any dependence on
+                           earlier calls (caches, static state) contradicts the oracle.  History-independence of the
+                           implementation is established by this correspondence over repeated-input histories; in the
+                           model it holds by construction (pure functions).
+  tie 7  threads           (C12) N threads execute the same list of sign / validate calls concurrently; every reply
+                           must equal the single-threaded one and every generated signature must verify independently;
+                           the same run under ThreadSanitizer reports unsynchronised static state directly.
 """
 import os
 import re
@@ -31,16 +50,35 @@ PROPS = {
                      "Rtr.C11.witness_valid_skiOnly", "Rtr.C11.decision_fails_skiOnly", "Rtr.C11.witness_refused_skiAndAs",
                      "Rtr.C11.digest_injective", "Rtr.C11.digest_changes",
                      "Rtr.C11.err_null", "Rtr.C11.err_null_nlri", "Rtr.C11.err_arguments", "Rtr.C11.err_segment_count", "Rtr.C11.err_suite",
-                     "Rtr.C11.err_afi", "Rtr.C11.err_missing_key", "Rtr.C11.never_valid_unless_supported"],
+                     "Rtr.C11.err_afi", "Rtr.C11.err_missing_key", "Rtr.C11.never_valid_unless_supported",
+                     "Rtr.C11.decision_lookups", "Rtr.C11.decision_lookups_general", "Rtr.C11.valid_needs_own_lookup",
+                     "Rtr.C11.empty_lookup_never_valid", "Rtr.C11.empty_lookup_never_valid_repaired",
+                     "Rtr.C11.malformed_signature_never_valid", "Rtr.C11.decision_wf"],
     },
     "C12": {
         "modules": ["RtrProps.C12"],
         "theorems": ["Rtr.C12.sign_digest_eq_rfc", "Rtr.C12.sign_stream_size", "Rtr.C12.generate_signs_rfc_digest",
                      "Rtr.C12.hop_by_hop_valid", "Rtr.C12.sign_err_null", "Rtr.C12.sign_err_null_nlri", "Rtr.C12.sign_err_arguments",
                      "Rtr.C12.sign_err_suite", "Rtr.C12.sign_err_afi", "Rtr.C12.sign_err_segment_count",
-                     "Rtr.C12.sign_err_key", "Rtr.C12.sign_no_output_on_error"],
+                     "Rtr.C12.sign_err_key", "Rtr.C12.sign_no_output_on_error",
+                     "Rtr.C12.hop_by_hop_valid_wf", "Rtr.C12.generate_wellformed"],
     },
 }
+
+# rtrlib's calls of the rwlock functions go through the wrappers of the harness (schedule of table changes)
+LOCK_WRAP = ["-Dpthread_rwlock_rdlock=bgh_rdlock", "-Dpthread_rwlock_wrlock=bgh_wrlock", "-Dpthread_rwlock_unlock=bgh_unlock"]
+TSAN_FLAGS = ["-O1", "-g", "-fsanitize=thread", "-fno-omit-frame-pointer", "-UNDEBUG"]
+
+
+def build_bgp_harness():
+    return vlib.build_harness("bgpsec", ["bgpsec_harness.c"], exclude=["rtrlib/bgpsec/bgpsec_utils.c"],
+                              flags=vlib.SAN_FLAGS + LOCK_WRAP)
+
+
+def build_bgp_tsan():
+    return vlib.build_harness("bgpsec_tsan", ["bgpsec_harness.c"], exclude=["rtrlib/bgpsec/bgpsec_utils.c"],
+                              flags=TSAN_FLAGS + LOCK_WRAP, cc="clang-14", variant="tsan")
+
 
 SIG_F10 = "C11/key-as-mismatch"
 CORPUS = os.path.join(vlib.VERIF, "corpus", "bgpsec")
@@ -55,6 +93,12 @@ CORPUS_FILES = {
     "Fbgp3_loop_overrun.ops": ("C11", "C11/loop-overrun"),
     "Fbgp4_null_nlri_validate.ops": ("C11", "C11/null-nlri"),
     "Fbgp4_null_nlri_sign.ops": ("C12", "C12/null-nlri"),
+    "sched_key_withdrawn_before_hop_lookup.ops": ("C11", None),
+    "reenc_newest_signature.ops": ("C11", None),
+    "hist_good_bad_samebad.ops": ("C12", None),
+    "hist_bad_good_samebad.ops": ("C12", None),
+    "hist_A_B_A.ops": ("C12", None),
+    "mt_sign_validate.ops": ("C12", None),
 }
 
 
@@ -108,6 +152,121 @@ def expected_precheck(d):
 
 
 # ------------------------------------------------------------------------------------------
+# independent strict DER parser for ECDSA-Sig-Value ::= SEQUENCE { r INTEGER, s INTEGER }  (X.690 DER; no OpenSSL)
+# ------------------------------------------------------------------------------------------
+
+P256_N = 0xFFFFFFFF00000000FFFFFFFFFFFFFFFFBCE6FAADA7179E84F3B9CAC2FC632551
+
+
+def _der_len(b, p):
+    """definite length in its ONLY DER form (short form below 128, else the minimal number of length octets)"""
+    if p >= len(b):
+        return None
+    l = b[p]
+    p += 1
+    if l < 0x80:
+        return l, p
+    n = l & 0x7f
+    if n == 0 or n > 4 or p + n > len(b):        # 0x80 = indefinite (BER only), 0xff reserved
+        return None
+    v = int.from_bytes(b[p:p + n], "big")
+    if b[p] == 0 or v < 0x80:                    # not the shortest form
+        return None
+    return v, p + n
+
+
+def _der_int(b, p):
+    if p >= len(b) or b[p] != 0x02:
+        return None
+    r = _der_len(b, p + 1)
+    if r is None:
+        return None
+    l, p = r
+    if l == 0 or p + l > len(b):
+        return None
+    c = b[p:p + l]
+    if l > 1 and ((c[0] == 0x00 and c[1] < 0x80) or (c[0] == 0xff and c[1] >= 0x80)):   # superfluous leading octet
+        return None
+    return int.from_bytes(c, "big", signed=True), p + l
+
+
+def der_ecdsa_sig(b):
+    """(r, s) when the octets are exactly one strict DER SEQUENCE of two INTEGERs, else None"""
+    b = bytes(b)
+    if len(b) < 2 or b[0] != 0x30:
+        return None
+    r = _der_len(b, 1)
+    if r is None:
+        return None
+    l, p = r
+    if p + l != len(b):
+        return None
+    x = _der_int(b, p)
+    if x is None:
+        return None
+    y = _der_int(b, x[1])
+    if y is None or y[1] != len(b):
+        return None
+    return x[0], y[0]
+
+
+def ecdsa_wellformed(b):
+    """a well-formed ECDSA P-256 signature: strict DER and 1 <= r, s < n"""
+    rs = der_ecdsa_sig(b)
+    return rs is not None and 1 <= rs[0] < P256_N and 1 <= rs[1] < P256_N
+
+
+def _enc_len(l):
+    return bytes([l]) if l < 0x80 else (bytes([0x81, l]) if l < 0x100 else bytes([0x82, l >> 8, l & 0xff]))
+
+
+def _enc_int(v):
+    return v.to_bytes(v.bit_length() // 8 + 1, "big")
+
+
+def der_encode_sig(r, s_):
+    body = b"".join(b"\x02" + _enc_len(len(c)) + c for c in (_enc_int(r), _enc_int(s_)))
+    return b"\x30" + _enc_len(len(body)) + body
+
+
+REENC_REQUIRED = ["seq-long-len", "seq-long-len2", "r-long-len", "s-long-len", "r-lead0", "s-lead0", "r-neg", "s-neg",
+                  "indefinite", "trail-in", "trail-out", "r-zero", "malleate-s"]
+
+
+def reencodings(sig):
+    """other octet strings for the signature value of a strict DER signature, as (class, octets, still a signature?):
+    BER-only encodings of the same (r, s) / of a neighbouring value, and the second valid signature (r, n-s)"""
+    rs = der_ecdsa_sig(sig)
+    if rs is None or not ecdsa_wellformed(sig):
+        return []
+    r, s_ = rs
+    R, S = _enc_int(r), _enc_int(s_)
+
+    def tlv(c, ll=None):
+        return b"\x02" + (ll if ll is not None else _enc_len(len(c))) + c
+
+    def seq(body, ll=None):
+        return b"\x30" + (ll if ll is not None else _enc_len(len(body))) + body
+    body = tlv(R) + tlv(S)
+    out = [("seq-long-len", seq(body, bytes([0x81, len(body)])), False),
+           ("seq-long-len2", seq(body, bytes([0x82, 0, len(body)])), False),
+           ("r-long-len", seq(tlv(R, bytes([0x81, len(R)])) + tlv(S)), False),
+           ("s-long-len", seq(tlv(R) + tlv(S, bytes([0x81, len(S)]))), False),
+           ("r-lead0", seq(tlv(b"\x00" + R) + tlv(S)), False),
+           ("s-lead0", seq(tlv(R) + tlv(b"\x00" + S)), False),
+           ("indefinite", b"\x30\x80" + body + b"\x00\x00", False),
+           ("trail-in", seq(body + b"\x00"), False),
+           ("trail-out", seq(body) + b"\x00", False),
+           ("malleate-s", der_encode_sig(r, P256_N - s_), True)]
+    if R[0] == 0 and len(R) > 1:
+        out.append(("r-neg", seq(tlv(R[1:]) + tlv(S)), False))       # the sign octet dropped: a negative INTEGER
+    if S[0] == 0 and len(S) > 1:
+        out.append(("s-neg", seq(tlv(R) + tlv(S[1:])), False))
+    out.append(("r-zero", der_encode_sig(0, s_), False))              # strict DER, but r out of range
+    return out
+
+
+# ------------------------------------------------------------------------------------------
 # process helpers
 # ------------------------------------------------------------------------------------------
 
@@ -142,6 +301,11 @@ class Runner:
         return out
 
 
+def clean_err(err, n=3000):
+    """stderr without rtrlib's debug chatter"""
+    return "\n".join(l for l in err.splitlines() if not re.match(r"\(\d{4}/\d\d/\d\d ", l))[-n:]
+
+
 def crash_signature(err):
     m = re.search(r"ERROR: AddressSanitizer: ([a-zA-Z-]+)", err)
     if m:
@@ -161,31 +325,61 @@ def crash_signature(err):
 # ------------------------------------------------------------------------------------------
 
 def run_corpus_file(R, path):
-    """returns list of (line, expectation, observed) that fail; a crash is a failure of that line"""
-    fails = []
+    """returns list of (line, expectation, observed, stderr) that fail; a crash is a failure of that line.
+    Expectations precede their request line:  `#= reply`  `#!= first word that must NOT be answered`  `#~ regex the reply must match`.
+    A file containing the line `#! one-process` is a HISTORY: all its requests go to one process, in order."""
+    import re as _re
+    items = []
     exp = None
+    one = False
     for raw in open(path):
         raw = raw.rstrip("\n")
+        if raw.strip() == "#! one-process":
+            one = True
+            continue
         if raw.startswith("#= "):
             exp = ("=", raw[3:].strip())
             continue
         if raw.startswith("#!= "):
             exp = ("!=", raw[4:].strip())
             continue
+        if raw.startswith("#~ "):
+            exp = ("~", raw[3:].strip())
+            continue
         if not raw.strip() or raw.startswith("#"):
             continue
+        items.append((raw, exp))
+        exp = None
+
+    def judge(exp, out):
+        if not exp:
+            return True
+        if exp[0] == "=":
+            return out == exp[1]
+        if exp[0] == "!=":
+            return out.split()[0] != exp[1]
+        return _re.search(exp[1], out) is not None
+    fails = []
+    if one:
+        lines = [raw for raw, _ in items]
+        out, rc, err = vlib.run_lines(R.exe, lines, timeout=600)
+        R.impl_lines += len(lines)
+        for (raw, exp), o in zip(items, out):
+            if not judge(exp, o):
+                fails.append((raw, exp, o, ""))
+        if rc != 0 or len(out) != len(lines):
+            k = min(len(out), len(lines) - 1)
+            fails.append((lines[k], items[k][1], "CRASH " + crash_signature(err), err))
+        return fails
+    for raw, exp in items:
         try:
             out = R.impl([raw])[0]
         except Crash as c:
             out = "CRASH " + crash_signature(c.err)
             fails.append((raw, exp, out, c.err))
-            exp = None
             continue
-        if exp:
-            ok = (out == exp[1]) if exp[0] == "=" else (out.split()[0] != exp[1])
-            if not ok:
-                fails.append((raw, exp, out, ""))
-        exp = None
+        if not judge(exp, out):
+            fails.append((raw, exp, out, ""))
     return fails
 
 
@@ -366,18 +560,70 @@ def systematic_tables(case, victim, wrong_key, max_len=4):
 # ------------------------------------------------------------------------------------------
 
 class VReq:
-    def __init__(self, d, table, tag):
+    def __init__(self, d, table, tag, events=None):
         self.d, self.table, self.tag = d, table, tag
         self.impl = self.model = self.oracle = None
         self.oracle_why = ""
         self.f10 = False
+        # table changes during the call: [(trigger "L3"/"A5", [("+"|"-", (asn, ski, spki)), …]), …]
+        self.events = events
+        self.js = None            # per event: number of lookups made when it happened (None: never), reported by the harness
+        self.outs = None          # oracle part of the model's request line
+        self.der_conflict = None
+
+    def base_line(self):
+        if self.events is None:
+            return "validate %s %s" % (self.d.toks(), table_toks(self.table))
+        ev = " ".join("%s %d %s" % (trig, len(ops), " ".join("%s%d:%s:%s" % (sg, a, s.hex(), k.hex()) for sg, (a, s, k) in ops))
+                      for trig, ops in self.events)
+        return "validate-sched %s %s E %d %s" % (self.d.toks(), table_toks(self.table), len(self.events), ev)
+
+    def at_part(self):
+        return " AT " + " ".join("-" if j is None else str(j) for j in self.js) if self.events is not None else ""
+
+    def full_line(self, mode):
+        """the request as the model driver needs it (the harness ignores everything from AT / O on)"""
+        return "%s%s O %s%s" % (self.base_line(), self.at_part(), mode, (" " + " ".join(self.outs)) if self.outs else "")
+
+    def tables(self):
+        """table after each event (spki_table_add_entry refuses an exact duplicate, appends otherwise)"""
+        res = []
+        cur = list(self.table)
+        for trig, ops in self.events or []:
+            for sg, e in ops:
+                if sg == "+":
+                    if e not in cur:
+                        cur.append(e)
+                elif e in cur:
+                    cur.remove(e)
+            res.append(list(cur))
+        return res
+
+    def view(self, k):
+        """the table lookup number k of the call finds"""
+        t = self.table
+        if self.events is not None:
+            for j, tab in zip(self.js, self.tables()):
+                if j is not None and j <= k:
+                    t = tab
+        return t
 
 
 def run_validations(R, reqs, mode, vcache):
     """fills impl / model / oracle of every request"""
+    # 0. requests with a schedule of table changes: the implementation runs first and reports where the events fell
+    sched = [q for q in reqs if q.events is not None]
+    if sched:
+        for q, o in zip(sched, R.impl([q.base_line() for q in sched])):
+            w = o.split()
+            q.impl = w[0]
+            q.js = [None if x == "-" else int(x) for x in w[1:]]
+            if len(q.js) != len(q.events):
+                raise RuntimeError("harness reply to validate-sched malformed: " + o)
     todo = [q for q in reqs if q.d.supported()]
-    # 1. spec digests and selected keys from the model
-    qout = R.model(["queries %s %s" % (q.d.toks(), table_toks(q.table)) for q in todo])
+    # 1. spec digests and selected keys from the model (per hop: the keys that hop's own lookup returns)
+    qout = R.model([("queries-sched %s%s" % (q.base_line()[len("validate-sched "):], q.at_part())) if q.events is not None
+                    else "queries %s %s" % (q.d.toks(), table_toks(q.table)) for q in todo])
     need = []
     hopinfo = {}
     for q, line in zip(todo, qout):
@@ -399,34 +645,46 @@ def run_validations(R, reqs, mode, vcache):
     # 3. model decision, 4. implementation
     mlines, ilines = [], []
     for q in reqs:
-        base = "validate %s %s" % (q.d.toks(), table_toks(q.table))
-        ilines.append(base)
         if q.d.supported():
             outs = []
-            for dg, sig, keys in hopinfo[id(q)]:
-                outs.append("".join(vcache[(s, dg, sig)] for s in keys) or "-")
-            mlines.append("%s O %s %s" % (base, mode, " ".join(outs)))
-        else:
-            mlines.append("%s O %s" % (base, mode))
+            for (dg, sig, keys), (ski, sigb) in zip(hopinfo[id(q)], q.d.sigs):
+                letters = "".join(vcache[(s, dg, sig)] for s in keys) or "-"
+                # the signature field judged by the independent strict DER parser
+                strict = der_ecdsa_sig(sigb) is not None
+                if not strict and any(c != "e" for c in letters if c != "-"):
+                    q.der_conflict = "hop signature %s… is not strict DER (independent parser) but plain OpenSSL ECDSA_verify answered %s" % (sigb.hex()[:24], letters)
+                outs.append(("" if strict else "!") + letters)
+            q.outs = outs
+        if q.events is None:
+            ilines.append(q.base_line())
+        mlines.append(q.full_line(mode))
     mout = R.model(mlines)
     iout = R.impl(ilines)
+    it = iter(iout)
     # 5. the property's oracle
-    for q, mo, io in zip(reqs, mout, iout):
-        q.model, q.impl = mo, io
+    for q, mo in zip(reqs, mout):
+        q.model = mo
+        if q.events is None:
+            q.impl = next(it)
+        else:
+            q.model = mo.split()[0] if mo != "bad-op" else mo
         pre = expected_precheck(q.d)
         if pre:
             q.oracle, q.oracle_why = pre, "pre-check"
             continue
         hops = hopinfo[id(q)]
+        n = len(hops)
         verdict = "VALID"
         for i, (dg, sig, keys) in enumerate(hops):
             ski = q.d.sigs[i][0]
             asn = q.d.path[i][2]
-            by_ski = [(a, k) for a, s, k in q.table if s == ski]
+            tab = q.view(i)                                   # what the i-th lookup of check_router_keys finds
+            by_ski = [(a, k) for a, s, k in tab if s == ski]
             right = [k for a, k in by_ski if a == asn]
             if not right:
                 verdict = "ROUTER_KEY_NOT_FOUND"
-                q.oracle_why = "hop %d: no router key registered for SKI %s.. and AS %d" % (i, ski.hex()[:8], asn)
+                q.oracle_why = "hop %d: no router key registered for SKI %s.. and AS %d%s" % (
+                    i, ski.hex()[:8], asn, " when check_router_keys looked (lookup %d)" % i if q.events is not None else "")
                 if by_ski:
                     q.f10 = True      # a key with this SKI exists, but only under other AS numbers
                 break
@@ -434,11 +692,17 @@ def run_validations(R, reqs, mode, vcache):
             for i, (dg, sig, keys) in enumerate(hops):
                 ski = q.d.sigs[i][0]
                 asn = q.d.path[i][2]
-                ok = any(a == asn and vcache.get((k.hex(), dg, sig)) == "v" for a, s, k in q.table if s == ski)
+                tab = q.view(n + i)                           # what the lookup of loop iteration i finds
+                if not ecdsa_wellformed(q.d.sigs[i][1]):
+                    verdict = "NOT-VALID"
+                    q.oracle_why = "hop %d: the signature field is not a well-formed (strict DER, 1 <= r,s < n) ECDSA P-256 signature" % i
+                    break
+                ok = any(a == asn and vcache.get((k.hex(), dg, sig)) == "v" for a, s, k in tab if s == ski)
                 if not ok:
                     verdict = "NOT-VALID"       # NOT_VALID or ERROR: the property only demands "not VALID"
-                    q.oracle_why = "hop %d: no key registered for (SKI, AS %d) verifies the signature over the RFC 8205 octets" % (i, asn)
-                    if any(vcache.get((k.hex(), dg, sig)) == "v" for a, s, k in q.table if s == ski):
+                    q.oracle_why = "hop %d: no key registered for (SKI, AS %d) %sverifies the signature over the RFC 8205 octets" % (
+                        i, asn, "that this hop's own lookup (number %d of the call) returned " % (n + i) if q.events is not None else "")
+                    if any(vcache.get((k.hex(), dg, sig)) == "v" for a, s, k in tab if s == ski):
                         q.f10 = True
                     break
         q.oracle = verdict
@@ -446,7 +710,9 @@ def run_validations(R, reqs, mode, vcache):
 
 def oracle_agrees(q):
     if q.oracle == "NOT-VALID":
-        return q.impl in ("NOT_VALID", "ERROR")
+        # with the table changing under the call the property fixes "not VALID" only (rtrlib answers SUCCESS = 0 when a
+        # hop's lookup comes back empty)
+        return q.impl in ("NOT_VALID", "ERROR") or (q.events is not None and q.impl != "VALID")
     return q.impl == q.oracle
 
 
@@ -595,7 +861,7 @@ def run(pid, tier):
             rep.build_log = log
             vlib.proof_failure(rep, "model driver bgpdriver does not build")
             return rep.finish()
-    exe, blog = vlib.build_harness("bgpsec", ["bgpsec_harness.c"], exclude=["rtrlib/bgpsec/bgpsec_utils.c"])
+    exe, blog = build_bgp_harness()
     if exe is None:
         rep.build_log = blog
         vlib.proof_failure(rep, "harness build against the repository failed (correspondence bgpsec)")
@@ -630,9 +896,16 @@ def run(pid, tier):
             stop = "+stop"
         if fails and (prop == pid or prop is None):
             raw, exp, out, err = fails[0]
-            txt = "# corpus/bgpsec/%s: the implementation fails the property on this input\n# expected: reply %s %s\n# observed: %s\n%s\n%s" % (
-                fn, exp[0] if exp else "", exp[1] if exp else "(no crash)", out, raw if len(raw) < 20000 else raw[:20000] + " …(see corpus file)",
-                ("\n--- stderr ---\n" + err[-2500:]) if err else "")
+            whole = open(os.path.join(CORPUS, fn)).read()
+            if "#! one-process" in whole:
+                # a history: the whole file is the input (all requests to one process, in order)
+                txt = "# corpus/bgpsec/%s: the implementation fails the property on this history\n# failing request: %s…\n# expected: reply %s %s\n# observed: %s\n%s%s" % (
+                    fn, raw[:120], exp[0] if exp else "", exp[1] if exp else "(no crash)", out[:300], whole,
+                    ("\n--- stderr ---\n" + clean_err(err, 2500)) if err else "")
+            else:
+                txt = "# corpus/bgpsec/%s: the implementation fails the property on this input\n# expected: reply %s %s\n# observed: %s\n%s\n%s" % (
+                    fn, exp[0] if exp else "", exp[1] if exp else "(no crash)", out, raw if len(raw) < 20000 else raw[:20000] + " …(see corpus file)",
+                    ("\n--- stderr ---\n" + clean_err(err, 2500)) if err else "")
             rep.violation("corpus_" + fn.split(".")[0], txt, signature=sig)
             violations += 1
     # which of the two behaviours (current / repaired) the tree under test shows decides which model variant the
@@ -668,7 +941,7 @@ def run(pid, tier):
     except Crash as c:
         sig = crash_signature(c.err)
         rep.violation("crash", "# implementation aborted (rc=%s) on this request after %d replies of the batch\n# %s\n%s\n--- stderr ---\n%s\n" % (
-            c.rc, c.nout, sig, c.line if len(c.line) < 20000 else c.line[:20000] + " …", c.err[-3000:]), signature=pid + "/" + sig)
+            c.rc, c.nout, sig, c.line if len(c.line) < 20000 else c.line[:20000] + " …", clean_err(c.err)), signature=pid + "/" + sig)
         violations += 1
     except RuntimeError as e:
         rep.build_log = str(e)
@@ -692,6 +965,10 @@ def run(pid, tier):
         vlib.proof_failure(rep, "correspondence bgpsec (model RtrModel.Bgpsec vs bgpsec.c / bgpsec_utils.c) diverges: " + what)
     if not proved and not divergences and not oracle_fails:
         vlib.proof_failure(rep, "\n".join(t for t, ok in rep.obligations.items() if not ok))
+    # coverage gate: the classes the check claims to exercise must have been reached (only judged on a run that found nothing)
+    if stats.get("coverage_gate_missing") and proved and not divergences and not oracle_fails and not violations:
+        rep.build_log = "classes not reached:\n  " + "\n  ".join(stats["coverage_gate_missing"])
+        vlib.proof_failure(rep, "coverage gate of tools/bgpcheck.py (a required class was never exercised)")
 
     rep.cov.update({
         "evaluations": R.impl_lines,
@@ -705,9 +982,18 @@ def run(pid, tier):
         "traces_validated_against_impl": R.impl_lines - len(divergences),
         "distribution": stats,
     })
+    rep.cov["history_independence"] = (
+        "the model's answers are functions of the call's arguments by construction (pure Lean functions), which says nothing about the C code; "
+        "that the implementation's answer to a call does not depend on earlier calls of the process is established by the correspondence over "
+        "repeated-input histories in one process (C12: good key / unloadable key / the same unloadable key again, unloadable / good / same unloadable, "
+        "A-B-A, same request twice, every key sequence of length 3 over 2 loadable + 4 unloadable keys; C11: the same validation requests asked again "
+        "A B ... B A) and, for several threads, by replaying one call list from 2-4 threads (plus ThreadSanitizer) against its single-threaded answers")
     rep.assumptions = [
-        "ECDSA P-256, SHA-256, DER (de)coding and key loading are OpenSSL's (uninterpreted hash/verify/sign in the theorems; "
-        "assumption verify pk (hash m) (sign sk (hash m)) = valid for matching pairs)",
+        "ECDSA P-256, SHA-256 and key loading are OpenSSL's (uninterpreted hash/verify/sign in the theorems; "
+        "assumption verify pk (hash m) (sign sk (hash m)) = valid for matching pairs); whether a signature field is a strict DER ECDSA-Sig-Value "
+        "(parameter wf of validateSignature) is judged by an independent parser (bgpcheck.der_ecdsa_sig), not by OpenSSL",
+        "the router-key table may change between any two lookups of one validation call (View = one table snapshot per lookup); a single lookup is atomic "
+        "because it holds the table's read lock (lock discipline: C16)",
         "counters and stream offsets do not wrap in the model (path_len < 2^8 segments, stream < 2^16 bytes in the unpatched tree: Fbgp1, Fbgp2)",
         "NLRI trailing bits zero is the caller's documented obligation (bgpsec.h); data->afi = nlri->afi is the caller's business",
         "current loop bound (stop=false): the loop stops after the last segment only because a verifying signature is longer than nlri octets - 13 (Fbgp3)",
@@ -772,25 +1058,32 @@ def check_requests(reqs, mode, divergences, oracle_fails, stats, distinct, note,
     bad = 0
     for q in reqs:
         hist(stats["codes"], q.impl)
-        distinct.add((q.d.toks(), table_toks(q.table), q.impl))
-        line = "validate %s %s" % (q.d.toks(), table_toks(q.table))
-        if not oracle_agrees(q) and R is not None and MINIMISED[0] < 2 and not (mode == "ski" or mode.startswith("ski+")):
+        distinct.add((q.base_line(), q.impl))
+        if not oracle_agrees(q) and R is not None and q.events is None and MINIMISED[0] < 2 and not (mode == "ski" or mode.startswith("ski+")):
             MINIMISED[0] += 1
             q0 = q
             q = minimise_request(R, q, mode, vcache)
             q.tag = q0.tag + ", minimised"
-            line = "validate %s %s" % (q.d.toks(), table_toks(q.table))
+        line = q.full_line(mode)
         if not oracle_agrees(q):
             # F10 class: the AS number is ignored when router keys are looked up (VALID with a key of another AS, or
             # NOT_VALID/ERROR instead of ROUTER_KEY_NOT_FOUND when the segment's AS has no key under that SKI)
             # (only when the corpus replay showed that this tree selects keys by SKI only; on a tree that passes the
             # replay any such failure is a new violation)
             sig = SIG_F10 if (mode.startswith("ski+") or mode == "ski") and (q.f10 and q.impl in ("VALID", "NOT_VALID", "ERROR")) else None
-            oracle_fails.append((sig, "# C11 fails on the implementation (%s, %s)\n# rtr_bgpsec_validate_as_path answered %s; the property demands %s\n# because: %s\n# router keys carrying the SKIs of the path, in table order (AS, SKI.., verifies hop's signature over the RFC 8205 octets?): %s\n%s\n" % (
-                note, q.tag, q.impl, q.oracle, q.oracle_why or "-", describe_keys(q, vcache), line if len(line) < 30000 else line[:30000] + " …")))
+            sched_note = ""
+            if q.events is not None:
+                sched_note = "# key table changed during the call: %s\n" % "; ".join(
+                    "event %d (%s: %s) happened after %s table lookups of the call" % (
+                        e, trig, ", ".join("%s AS%d/%s../%s.." % ("add" if sg == "+" else "remove", a, sk.hex()[:8], k.hex()[52:60]) for sg, (a, sk, k) in ops),
+                        "-" if j is None else j) for e, ((trig, ops), j) in enumerate(zip(q.events, q.js)))
+            oracle_fails.append((sig, "# C11 fails on the implementation (%s, %s)\n# rtr_bgpsec_validate_as_path answered %s; the property demands %s (model: %s)\n# because: %s\n%s# router keys carrying the SKIs of the path, in table order (AS, SKI.., verifies hop's signature over the RFC 8205 octets?): %s\n%s\n" % (
+                note, q.tag, q.impl, q.oracle, q.model, q.oracle_why or "-", sched_note, describe_keys(q, vcache), line if len(line) < 30000 else line[:30000] + " …")))
             bad += 1
         if q.impl != q.model:
             divergences.append(("decision logic (%s, %s, key mode %s)" % (note, q.tag, mode), line, q.impl, q.model))
+        if q.der_conflict:
+            divergences.append(("independent strict DER parser vs. plain OpenSSL (%s, %s)" % (note, q.tag), line, q.der_conflict, "-"))
     return bad
 
 
@@ -909,6 +1202,132 @@ def run_c11(R, r, rep, stats, lens, mode, vcache, thorough, divergences, oracle_
                     q.tag, q.d.toks(), table_toks(q.table))))
         if (divergences or any(x[0] is None for x in oracle_fails)) and not thorough:
             break
+    if not thorough and (divergences or any(x[0] is None for x in oracle_fails)):
+        for o in vcache.values():
+            hist(stats["verify_outcomes"], o or "?")
+        return 0
+    gate = []
+    import time as _t
+    t0 = _t.time()
+    # ---------------- other encodings of a valid signature (tie 5) ----------------
+    short = sorted([cq for cq in good if len(cq[0].d.path) <= 3], key=lambda cq: (len(cq[0].d.path), cq[0].cid))
+    n_re = 24 if not thorough else 300
+    rreqs = []
+    seen_cls = {}
+    for c, q in short[:n_re]:
+        for h in range(len(c.d.sigs)):
+            for cls, enc, still in reencodings(c.d.sigs[h][1]):
+                m = c.d.copy()
+                m.sigs[h] = (m.sigs[h][0], enc)
+                x = VReq(m, c.table, "case %d (%d hops), signature of hop %d re-encoded: %s" % (c.cid, len(c.d.path), h, cls))
+                x.reenc = (cls, h, still)
+                rreqs.append(x)
+                # self-check of the independent parser on its own products
+                # (a dropped sign octet leaves a strict DER negative INTEGER unless the value then starts ff 80..ff: either way not a signature)
+                if cls not in ("r-neg", "s-neg") and (der_ecdsa_sig(enc) is not None) != (cls in ("malleate-s", "r-zero")):
+                    divergences.append(("generator self-check: strict DER parser on re-encoding %s" % cls, enc.hex(), "-", "-"))
+    run_validations(R, rreqs, mode, vcache)
+    check_requests(rreqs, mode, divergences, oracle_fails, stats, distinct, "re-encoded signature", R, vcache)
+    stats["reencodings"] = {}
+    for x in rreqs:
+        cls, h, still = x.reenc
+        hist(stats["reencodings"], cls)
+        if h == 0:
+            seen_cls[cls] = seen_cls.get(cls, 0) + 1
+            # the newest signature is signed by nobody: (r, n-s) must be VALID, every BER-only form must not
+            if still and x.oracle != "VALID":
+                divergences.append(("generator self-check: (r, n-s) of a valid newest signature is not VALID for the independent oracle", x.base_line()[:300], x.impl, x.oracle))
+            if not still and x.oracle == "VALID":
+                divergences.append(("generator self-check: the oracle accepts re-encoding %s" % cls, x.base_line()[:300], x.impl, x.oracle))
+    miss = [c for c in REENC_REQUIRED if not seen_cls.get(c)]
+    if miss:
+        gate.append("signature re-encodings never exercised on a newest Signature Segment: %s" % ", ".join(miss))
+    stats.setdefault("phase_s", {})["reencodings"] = round(_t.time() - t0, 2)
+    t0 = _t.time()
+    # ---------------- the key table changes during the call (tie 4) ----------------
+    n_sets = 2 if not thorough else 12
+    sets = []
+    for k in range(n_sets):
+        for want in (1, 2, 3):
+            cand = [cq for cq in plain_ok if len(cq[0].d.path) == want and cq not in sets]
+            if cand:
+                sets.append(cand[0])
+    qreqs = []
+    stats["sched"] = {}
+    for idx, (c, q) in enumerate(sets):
+        n = len(c.d.path)
+        wk = wrong[idx % len(wrong)]
+        plain = [(c.d.path[i][2], c.signers[i].ski, c.signers[i].spki) for i in range(n)]
+        lpts = ["L%d" % j for j in range(2 * n + 1)]
+        apts = ["A%d" % j for j in range(2 * n + 4)]
+        for h in range(n):
+            asn, ski, spki = plain[h]
+            own = plain[h]
+            oth = ((asn ^ 0x10000) & 0xffffffff, ski, spki)
+            wr = (asn, ski, wk.spki)
+            without = plain[:h] + plain[h + 1:]
+            singles = [("remove", plain, [("-", own)]),
+                       ("replace-as", plain, [("-", own), ("+", oth)]),
+                       ("replace-key", plain, [("-", own), ("+", wr)]),
+                       ("add-second", plain, [("+", wr)]),
+                       ("add-other-as", plain, [("+", oth)]),
+                       ("late-key", without, [("+", own)]),
+                       ("wrong-then-right", plain[:h] + [wr] + plain[h + 1:], [("-", wr), ("+", own)])]
+            for kind, tab, ops in singles:
+                for pt in lpts + apts:
+                    x = VReq(c.d, tab, "case %d (%d hops), hop %d: %s at %s" % (c.cid, n, h, kind, pt), events=[(pt, ops)])
+                    x.sched = (kind, h)
+                    qreqs.append(x)
+            for a in range(len(lpts)):
+                for b in range(a + 1, len(lpts)):
+                    x = VReq(c.d, plain, "case %d (%d hops), hop %d: withdrawn at %s, back at %s" % (c.cid, n, h, lpts[a], lpts[b]),
+                             events=[(lpts[a], [("-", own)]), (lpts[b], [("+", own)])])
+                    x.sched = ("withdrawn-and-back", h)
+                    qreqs.append(x)
+    BQ = 2500
+    for b0 in range(0, len(qreqs), BQ):
+        part = qreqs[b0:b0 + BQ]
+        run_validations(R, part, mode, vcache)
+        check_requests(part, mode, divergences, oracle_fails, stats, distinct, "key table changed during the call", R, vcache)
+    placed = {"before-precheck": 0, "between-precheck-and-own-lookup": 0, "after-own-lookup": 0, "never": 0}
+    empty_own = 0
+    for x in qreqs:
+        kind, h = x.sched
+        n = len(x.d.path)
+        hist(stats["sched"], kind)
+        j = x.js[0]
+        placed["never" if j is None else "before-precheck" if j <= h else "between-precheck-and-own-lookup" if j <= n + h else "after-own-lookup"] += 1
+        if x.oracle != "ROUTER_KEY_NOT_FOUND" and not [1 for a, s_, k in x.view(n + h) if s_ == x.d.sigs[h][0]]:
+            # every earlier hop must have verified for the loop to get here; what matters is that the class occurs
+            empty_own += 1
+            hist(stats["sched"], "own lookup empty -> " + x.impl)
+    stats["sched_placement"] = placed
+    stats["sched_empty_own_lookup"] = empty_own
+    stats["sched_validations"] = len(qreqs)
+    for k_, v in placed.items():
+        if not v:
+            gate.append("no table change placed %s" % k_)
+    if not empty_own:
+        gate.append("no validation in which a hop's own lookup came back empty after the pre-check had found its key")
+    for kind in ("remove", "replace-as", "replace-key", "add-second", "add-other-as", "late-key", "wrong-then-right", "withdrawn-and-back"):
+        if not stats["sched"].get(kind):
+            gate.append("table change of kind %s never exercised" % kind)
+    stats["phase_s"]["table_changes"] = round(_t.time() - t0, 2)
+    t0 = _t.time()
+    # ---------------- repeated requests within one process (tie 6) ----------------
+    pool = reqs[:30] + sreqs[:20] + creqs[:40] + rreqs[:30]
+    rep_reqs = [VReq(x.d, x.table, x.tag + ", asked again (A B … A B)") for x in pool + pool[::-1]]
+    run_validations(R, rep_reqs, mode, vcache)
+    check_requests(rep_reqs, mode, divergences, oracle_fails, stats, distinct, "repeated request")
+    for x, y in zip(pool + pool[::-1], rep_reqs):
+        if x.impl != y.impl and x.events is None:
+            oracle_fails.append((None, "# C11: the same validation request got two different answers within one process (%s, then %s): %s\n%s\n" % (
+                x.impl, y.impl, x.tag, y.full_line(mode)[:20000])))
+    stats["repeated_requests"] = len(rep_reqs)
+    stats["phase_s"]["repeated"] = round(_t.time() - t0, 2)
+    if not rep_reqs:
+        gate.append("no repeated requests")
+    stats["coverage_gate_missing"] = gate
     for o in vcache.values():
         hist(stats["verify_outcomes"], o or "?")
     return 0
@@ -929,6 +1348,8 @@ def expected_gensig(d, key_ok):
 
 
 def run_c12(R, r, rep, stats, lens, mode, vcache, thorough, divergences, oracle_fails, distinct):
+    del MT_SIGN_CALLS[:]
+    gensigs = set()
     n_paths = 500 if not thorough else 10000
     shapes = [[1, 2, 3, 8, 4, 5, 6, 7][c % 8] if c < 16 else r.randint(1, 8) for c in range(n_paths)]
     keys = keygen(R, sum(shapes) + n_paths)
@@ -972,6 +1393,9 @@ def run_c12(R, r, rep, stats, lens, mode, vcache, thorough, divergences, oracle_
             if int(w[1]) != len(sig) or w[3] != "der-ok" or not (8 <= len(sig) <= 72):
                 oracle_fails.append((None, "# C12: generated signature is not a well-formed DER ECDSA-Sig-Value of sig_len octets (sig_len=%s, %s)\n%s\n" % (w[1], w[3], glines[todo.index(p)][:4000])))
             distinct.add(w[2])
+            gensigs.add(w[2])
+            if len(MT_SIGN_CALLS) < 24 and len(d.path) <= 4:
+                MT_SIGN_CALLS.append("gensig %s %s V %s %s" % (d.toks(), p["keys"][i].priv.hex(), p["keys"][i].spki.hex(), dg))
             vlines.append("verify %s %s %s" % (p["keys"][i].spki.hex(), dg, w[2]))
             p["sigs"] = [(p["keys"][i].ski, sig)] + p["sigs"]
             d2 = d.copy()
@@ -1067,12 +1491,250 @@ def run_c12(R, r, rep, stats, lens, mode, vcache, thorough, divergences, oracle_
             oracle_fails.append((None, "# C12: a signature is returned together with %s\n%s\n" % (code, line[:6000])))
         if code != m:
             divergences.append(("generate_signature return code", line, code, m))
+    # well-formedness of every generated signature, judged by the independent strict DER parser
+    stats["generated_signatures_strict_der_checked"] = len(gensigs)
+    for hx in sorted(gensigs):
+        if not ecdsa_wellformed(bytes.fromhex(hx)):
+            oracle_fails.append((None, "# C12: a generated signature is not a well-formed ECDSA P-256 signature (independent strict DER parser: SEQUENCE of two minimal positive INTEGERs in 1..n-1, nothing else)\n# %s\n" % hx))
+            break
+    if not thorough and (divergences or any(x[0] is None for x in oracle_fails)):
+        return 0
+    gate = []
+    import time as _t
+    t0 = _t.time()
+    histories_c12(R, r, rep, keys, paths, stats, thorough, divergences, oracle_fails, distinct, gate)
+    stats.setdefault("phase_s", {})["histories"] = round(_t.time() - t0, 2)
+    t0 = _t.time()
+    threads_c12(R, r, rep, stats, thorough, oracle_fails, reqs, gate)
+    stats["phase_s"]["threads"] = round(_t.time() - t0, 2)
+    stats["coverage_gate_missing"] = gate
     return 0
+
+
+GOOD_RE = r"^SUCCESS \d+ [0-9a-f]+ der-ok v$"
+BAD_RE = r"^LOAD_PRIV_KEY_ERROR - - -$"
+
+
+class HCall:
+    """one signing call of a history: judged on ITS OWN arguments only"""
+
+    def __init__(self, sym, d, keybytes, good, spki, msg):
+        self.sym, self.d, self.key, self.good, self.spki, self.msg = sym, d, keybytes, good, spki, msg
+        self.line = "gensig %s %s V %s %s" % (d.toks(), keybytes.hex(), spki.hex(), msg)
+        self.mline = "gensig %s %s O %d 71" % (d.toks(), keybytes.hex(), 1 if good else 0)
+        self.exp = GOOD_RE if good else BAD_RE
+
+    def ok(self, reply):
+        if not re.search(self.exp, reply):
+            return False
+        return (not self.good) or ecdsa_wellformed(bytes.fromhex(reply.split()[2]))
+
+
+def history_text(title, calls, replies=None, note=""):
+    t = ["# C12, history of signing calls in ONE process; every call is judged on its own arguments:",
+         "#   a loadable key -> SUCCESS, strict DER signature that verifies (plain OpenSSL) under THAT key over the RFC 8205 octets of the Lean spec",
+         "#   an unloadable key -> LOAD_PRIV_KEY_ERROR and no signature, every time it is offered",
+         "# " + title]
+    if note:
+        t.append("# " + note)
+    t.append("#! one-process")
+    for i, c in enumerate(calls):
+        t.append("# call %d: key %s (%s)%s" % (i + 1, c.sym, "loadable" if c.good else "unloadable",
+                                               ("   observed: " + replies[i][:60]) if replies else ""))
+        t.append("#~ " + c.exp)
+        t.append(c.line)
+    return "\n".join(t) + "\n"
+
+
+def histories_c12(R, r, rep, keys, paths, stats, thorough, divergences, oracle_fails, distinct, gate):
+    """tie 6: inputs repeat within one process"""
+    import itertools
+    G1 = keys.pop() if keys else paths[0]["keys"][0]
+    G2 = keys.pop() if keys else paths[1]["keys"][0]
+
+    def flip_scalar(k, pos, bit):
+        kb = bytearray(k.priv)
+        kb[7 + pos] ^= 1 << bit          # another private scalar: the public key inside no longer matches
+        return bytes(kb)
+    b2 = bytes(r.getrandbits(8) for _ in range(121))
+    b3 = bytearray(G2.priv)
+    b3[0] ^= 0x01                        # not a SEQUENCE any more
+    syms = {"G1": (G1.priv, True, G1.spki), "G2": (G2.priv, True, G2.spki),
+            "B1": (flip_scalar(G1, r.randrange(32), r.randrange(8)), False, G1.spki), "B2": (b2, False, G2.spki),
+            "B3": (bytes(b3), False, G2.spki), "B4": (G1.priv[:r.randrange(40, 110)], False, G1.spki)}
+    # two requests to sign: an origination and a forwarding step of a longer path
+    da = paths[0]["base"].copy()
+    da.path, da.sigs, da.target = [paths[0]["segs"][-1]], [], paths[0]["final"]
+    pl = next((p for p in paths if len(p["segs"]) >= 3 and not p.get("dead")), paths[0])
+    db = pl["stages"][-1].copy() if pl["stages"] else da.copy()
+    if pl["stages"]:
+        db.path = [rand_path_seg(r)] + db.path
+        db.target = rand_asn(r)
+    ds = [da, db]
+    msgs = R.model(["sdigest " + d.toks() for d in ds])
+
+    def call(sym, which):
+        kb, good, spki = syms[sym]
+        return HCall(sym, ds[which], kb, good, spki, msgs[which])
+
+    def run_history(calls):
+        out, rc, err = vlib.run_lines(R.exe, [c.line for c in calls], timeout=600)
+        R.impl_lines += len(calls)
+        return out, rc, err
+
+    def first_bad(calls, out, rc):
+        for i, c in enumerate(calls):
+            if i >= len(out) or not c.ok(out[i]):
+                return i
+        return None if rc == 0 else len(out)
+    named = [("good key, unloadable key, the SAME unloadable key again", ["G1", "B1", "B1"]),
+             ("unloadable key, good key, the SAME unloadable key again", ["B1", "G1", "B1"]),
+             ("key A, key B, key A", ["G1", "G2", "G1"]),
+             ("good key, unloadable key, the good key again", ["G1", "B1", "G1"]),
+             ("the same request twice", ["G1", "G1"]),
+             ("good key, random octets twice", ["G2", "B2", "B2"]),
+             ("good key, damaged header twice", ["G1", "B3", "B3"]),
+             ("good key, truncated key twice", ["G2", "B4", "B4"])]
+    stats["histories"] = {}
+    reported = 0
+    histories = [(title, [call(x, i % 2 if "request twice" not in title else 0) for i, x in enumerate(seq)]) for title, seq in named]
+    # all sequences of three keys over the alphabet, concatenated into one long history (thorough: four)
+    ln = 3 if not thorough else 4
+    allseq = list(itertools.product(sorted(syms), repeat=ln))
+    r.shuffle(allseq)
+    long_calls = []
+    for seq in allseq:
+        w = r.randrange(2)
+        long_calls += [call(x, w if r.random() < 0.7 else 1 - w) for x in seq]
+    histories.append(("every sequence of %d keys over {%s}, concatenated" % (ln, ", ".join(sorted(syms))), long_calls))
+    for title, calls in histories:
+        out, rc, err = run_history(calls)
+        hist(stats["histories"], "calls", len(calls))
+        hist(stats["histories"], "histories")
+        for c, o in zip(calls, out):
+            hist(stats["gensig"], o.split()[0])
+            if o.startswith("SUCCESS"):
+                distinct.add(o.split()[2])
+        # model (stateless by construction): same codes
+        mo = R.model([c.mline for c in calls])
+        for c, o, m in zip(calls, out, mo):
+            if o.split()[0] != m:
+                divergences.append(("generate_signature return code within a history (%s)" % title, c.line[:3000], o.split()[0], m))
+                break
+        k = first_bad(calls, out, rc)
+        if k is None:
+            continue
+        if reported >= 2:
+            continue
+        reported += 1
+        # minimise the history: drop calls while some call still contradicts its own expectation
+        def still(cs):
+            o2, rc2, _ = run_history(cs)
+            return first_bad(cs, o2, rc2) is not None
+        small = vlib.ddmin(calls[:k + 1], still, max_tests=120) if len(calls) > 3 else calls
+        o2, rc2, err2 = run_history(small)
+        kk = first_bad(small, o2, rc2)
+        obs = o2[kk] if kk is not None and kk < len(o2) else "(aborted: %s)" % crash_signature(err2)
+        why = "call %d of this history (key %s, %s) was answered `%s`" % (
+            (kk or 0) + 1, small[kk].sym if kk is not None and kk < len(small) else "?",
+            "loadable" if kk is not None and kk < len(small) and small[kk].good else "unloadable", obs[:120])
+        if kk is not None and kk < len(small) and not small[kk].good and obs.startswith("SUCCESS"):
+            why += " - a signature was produced although THIS key cannot be loaded" + (
+                "; it verifies under the public key of an EARLIER call's key" if obs.endswith(" v") else "")
+        oracle_fails.append((None, history_text(title + " (minimised)", small, o2, why) +
+                             (("--- stderr ---\n" + clean_err(err2, 2500)) if rc2 != 0 else "")))
+    for need in ("good key, unloadable key, the SAME unloadable key again", "unloadable key, good key, the SAME unloadable key again",
+                 "key A, key B, key A"):
+        if need not in [t for t, _ in histories]:
+            gate.append("history class never exercised: " + need)
+    if stats["histories"].get("calls", 0) < 200:
+        gate.append("fewer than 200 signing calls inside histories")
+
+
+def threads_c12(R, r, rep, stats, thorough, oracle_fails, reqs, gate):
+    """tie 7: the same calls from several threads at once"""
+    # calls: signing requests (verified independently inside the harness) and validations, answers known single-threaded
+    sign_calls = MT_SIGN_CALLS[:24]
+    val_calls = [q.base_line() for q in reqs if q.events is None and len(q.d.path) <= 4][:12]
+    calls = sign_calls + val_calls
+    if len(sign_calls) < 8 or not val_calls:
+        gate.append("threaded run: not enough calls (%d signing, %d validation)" % (len(sign_calls), len(val_calls)))
+        return
+    rounds = 10 if not thorough else 150
+    ops = ["mt-begin"] + calls + ["mt-run %d %d" % (n, rounds) for n in (2, 3, 4)]
+    out, rc, err = vlib.run_lines(R.exe, ops, timeout=900)
+    R.impl_lines += len(ops)
+    single = out[1:1 + len(calls)]
+    stats["threads"] = {"calls": len(calls), "rounds": rounds, "thread_counts": [2, 3, 4],
+                        "executions": len(calls) * rounds * 9, "asan": "ok", "tsan": "not run"}
+
+    def mt_text(title, ops_, expect, extra=""):
+        t = ["# C12 (threads): " + title, "#! one-process"]
+        for o in ops_:
+            if o.startswith("mt-run"):
+                t.append("#= mt ok")
+            t.append(o)
+        return "\n".join(t) + "\n" + extra
+    bad = [o for o in out[1 + len(calls):] if o != "mt ok"]
+    if rc != 0 or len(out) != len(ops) or bad:
+        stats["threads"]["asan"] = "fails"
+        what = bad[0] if bad else "the process aborted (rc=%s, %s) after %d of %d replies" % (rc, crash_signature(err), len(out), len(ops))
+        oracle_fails.append((None, mt_text("%d calls (sign / validate) executed by 2, 3 and 4 threads at once, %d rounds each; every reply must equal the "
+                                           "single-threaded reply of the same call and every generated signature must verify independently\n# observed: %s" % (
+                                               len(calls), rounds, what[:700]), ops, None,
+                                           ("--- stderr ---\n" + clean_err(err)) if rc != 0 else "")))
+        if len(single) != len(calls):
+            return
+    for o, c in zip(single, calls):
+        if c.startswith("gensig") and not re.search(GOOD_RE, o):
+            oracle_fails.append((None, "# C12: signing call of the threaded set fails already single-threaded: %s\n%s\n" % (o[:100], c[:4000])))
+            return
+    # the same under ThreadSanitizer; the calls are NOT executed before the threads start, so that first use of any
+    # lazily initialised static state happens concurrently
+    texe, tlog = build_bgp_tsan()
+    if texe is None:
+        stats["threads"]["tsan"] = "build failed"
+        gate.append("ThreadSanitizer build of the harness failed: " + tlog[-300:])
+        return
+    tops = ["mt-defer"]
+    for c, o in zip(calls, single):
+        tops += ["mt-expect " + o, c]
+    trounds = 3 if not thorough else 30
+    tops.append("mt-run 4 %d" % trounds)
+    tout, trc, terr = vlib.run_lines(texe, tops, env={"TSAN_OPTIONS": "halt_on_error=0 exitcode=0 report_signal_unsafe=0 history_size=4"}, timeout=900)
+    R.impl_lines += len(tops)
+    races = re.findall(r"WARNING: ThreadSanitizer: [^\n]*", terr)
+    summaries = sorted(set(re.findall(r"SUMMARY: ThreadSanitizer: ([^\n]*)", terr)))
+    stats["threads"]["tsan"] = "ok" if not races and tout and tout[-1] == "mt ok" and trc == 0 else "fails"
+    stats["threads"]["tsan_reports"] = len(races)
+    if stats["threads"]["tsan"] != "ok":
+        what = "; ".join(summaries)[:900] if races else (tout[-1] if tout else "no reply (rc=%s)" % trc)
+        terr = clean_err(terr, 10 ** 7)
+        first = terr[terr.find("WARNING: ThreadSanitizer"):][:3500] if races else terr[-2000:]
+        oracle_fails.append((None, mt_text("4 threads execute %d calls (sign / validate) concurrently under ThreadSanitizer (first execution inside the threads)\n"
+                                           "# observed: %d report(s): %s" % (len(calls), len(races), what), ["mt-begin"] + calls + ["mt-run 4 %d" % rounds], None,
+                                           "--- ThreadSanitizer ---\n" + first)))
+
+
+MT_SIGN_CALLS = []
 
 
 
 def replay(path):
-    return vlib.generic_replay(path, lambda: vlib.build_harness("bgpsec", ["bgpsec_harness.c"], exclude=["rtrlib/bgpsec/bgpsec_utils.c"]), "bgpdriver")
+    txt = open(path, errors="replace").read()
+    if "#! one-process" in txt:
+        # a history / a threaded run: judged by the expectations written next to each request, implementation only
+        print(txt)
+        exe, blog = build_bgp_harness()
+        if exe is None:
+            print(blog)
+            return 1
+        fails = run_corpus_file(Runner(exe, None), path)
+        for raw, exp, out, err in fails:
+            print("FAILS: %s\n   expected %s %s\n   observed %s\n%s" % (raw[:200], exp[0] if exp else "", exp[1] if exp else "(no abort)", out[:300], err[-2000:]))
+        print("replay: %s" % ("FAILS" if fails else "passes on the current tree (every reply meets its expectation, no abort)"))
+        return 1 if fails else 0
+    return vlib.generic_replay(path, build_bgp_harness, "bgpdriver")
 
 if __name__ == "__main__":
     pid = sys.argv[1]
